@@ -2,7 +2,7 @@
    Property theorems only; every proof is `exact <lemma>` (or a two-line combination) from proof/C12_*.v.
    Layer 1: the containers (ring buffer, packet-number-indexed queue, windowed filter). *)
 From Hy Require Import lib.Res lib.F64 lib.F64x model.C12_Queue model.C12_Sender model.C12_Full
-  proof.C12_Ring proof.C12_PQ proof.C12_Layer1 proof.C12_Sender proof.C12_Arith proof.C12_Full.
+  proof.C12_Ring proof.C12_PQ proof.C12_Layer1 proof.C12_Sender proof.C12_Arith proof.C12_Full proof.C12_Late.
 From Coq Require Import ZArith List Bool Lia.
 Import ListNotations.
 Local Open Scope Z_scope.
@@ -495,3 +495,51 @@ Proof.
   - cbn [fevs_ok fev_ok]. unfold time_ok, in64, c12_MaxPacketBufferSize. repeat split; try lia; try (left; discriminate); try (right; discriminate).
   - eexists. split; [vm_compute; reflexivity|]. vm_compute. repeat split; reflexivity.
 Qed.
+
+(* ------------------------------------------------------------------ the long-run clauses (proof/C12_Late.v)
+   (e) PROBE_RTT cannot pin the connection, at the level of whole OnCongestionEventEx calls of the full model: the
+   min-RTT time stamp is only ever set to the time of the event at hand; PROBE_RTT is entered only when min_rtt is known
+   and its stamp is more than minRttExpiry (10 s) old, and ENTERING as well as LEAVING PROBE_RTT refresh the stamp.
+   (OnPacketSent and SetMaxDatagramSize do not touch mode or stamp.)  Hence, with a clock that does not go back, at
+   least minRttExpiry passes between leaving PROBE_RTT and entering it again: the clause the harness checks on the real
+   sender after every event (and at most 2 entries per 10 s). *)
+Theorem C12_probe_rtt_spacing : forall P st now prior rttMin rnd acked lost st',
+  f_cong P st now prior rttMin rnd acked lost = Ok st' ->
+  (m_minRttTs (fm st') = m_minRttTs (fm st) \/ m_minRttTs (fm st') = now) /\
+  (mode (fw st) <> c12_modeProbeRtt -> mode (fw st') = c12_modeProbeRtt ->
+     m_minRtt (fm st) <> 0 /\ i64w (m_minRttTs (fm st) + c12_minRttExpiryNs) < now /\ m_minRttTs (fm st') = now) /\
+  (mode (fw st) = c12_modeProbeRtt -> mode (fw st') <> c12_modeProbeRtt -> m_minRttTs (fm st') = now).
+Proof. exact f_cong_min_rtt_stamp. Qed.
+Print Assumptions C12_probe_rtt_spacing.
+
+(* (f) "does not deadlock" at the pacer for LATE calls (after an application idle gap), extending
+   C12_never_stalled_partial beyond the announced wake-up instant.  For a pacing bandwidth in [64 KB/s, 1 TB/s):
+   1. while bandwidth x elapsed < 2^63 (no wrap) the budget never shrinks, so a call at any time at or after the
+      announced wake-up time - immediately, when TimeUntilSend is zero - finds budget for a datagram;
+   2. when the int64 product has wrapped to a value <= -(budgetAtLastSent+1)*10^9 the guard `if budget < 0` makes the
+      budget a full burst (>= 10 datagrams).
+   NOT covered (no theorem can hold there: the code's value is what is left of a wrapped product): bandwidth x elapsed
+   in [2^64 k, 2^64 k + 2^63) for k >= 1 (wrapped back to a non-negative value) and the sliver of negative values above
+   -(budgetAtLastSent+1)*10^9; the harness evaluates its verdict on resumes in those ranges as well. *)
+Theorem C12_pacer_late_calls :
+  (forall p bw now,
+     c12_minBps <= bw < 1000000000000 -> 0 < p_mds p <= c12_MaxPacketBufferSize -> 0 <= p_budget p < 4611686018427387904 ->
+     0 < p_last p -> p_last p <= now < 4611686018427387904 -> pacer_time_until_send p bw <= now ->
+     bw * (now - p_last p) < two63 -> p_mds p <= pacer_budget p bw now) /\
+  (forall p bw now,
+     0 < p_mds p <= c12_MaxPacketBufferSize -> 0 < p_last p -> 0 <= p_budget p < 4611686018427387904 ->
+     wrap64 (bw * wrap64 (now - p_last p)) <= - (1000000000 * (p_budget p + 1)) ->
+     pacer_budget p bw now = max_burst p bw /\ 10 * p_mds p <= pacer_budget p bw now).
+Proof. split; [exact pacer_late_has_budget|exact pacer_budget_wrapped_negative]. Qed.
+Print Assumptions C12_pacer_late_calls.
+
+(* The overflow guard must map a negative budget to "a lot", not to zero: with `min(maxBurstSize(), max(budget, 0))`,
+   1.25 GB/s and a call 11 s after the last packet, TimeUntilSend names an instant 10.99 s in the past while the budget
+   is ZERO (the real Budget is a full 5 MB burst): HasPacingBudget is false although nothing was sent for 11 s. *)
+Theorem C12_pacer_negative_budget_must_not_clamp_to_zero :
+  let p := mkP 0 1200 1000000000 in let bw := 1250000000 in let now := 12000000000 in
+  pacer_time_until_send p bw = 1001000000 /\ pacer_time_until_send p bw < now /\
+  wrap64 (bw * wrap64 (now - p_last p)) < 0 /\
+  pacer_budget p bw now = 5000000 /\ pacer_budget_clamp0 p bw now = 0.
+Proof. exact clamp0_deadlocks. Qed.
+Print Assumptions C12_pacer_negative_budget_must_not_clamp_to_zero.
